@@ -50,14 +50,21 @@ def judge(items, accept, exp_type, exp_v, nonint, also_hex=True):
     """Feed one input to the real from_bytes. Returns None or (which, detail)."""
     import mido
     Message = mido.Message
-    variants = [('list', list(items))]
+    variants = [('list', list(items), None)]
     allbytes = all(type(x) is int and 0 <= x <= 255 for x in items)
     if allbytes:
-        variants.append(('bytes', bytes(items)))
-        variants.append(('tuple', tuple(items)))
-    for how, arg in variants:
+        variants.append(('bytes', bytes(items), None))
+        variants.append(('tuple', tuple(items), None))
+    # a time passed along (by position or keyword, also 1 and True) never changes the verdict
+    variants.append(('list+time', list(items), [1, True, 1.0, 0, 2][len(items) % 5]))
+    for how, arg, tpos in variants:
         try:
-            m = Message.from_bytes(arg)
+            if tpos is None:
+                m = Message.from_bytes(arg)
+            elif len(items) % 2:
+                m = Message.from_bytes(arg, tpos)
+            else:
+                m = Message.from_bytes(arg, time=tpos)
         except ValueError:
             if accept:
                 return 'rejects-valid/' + how, 'ValueError for a well-formed encoding'
@@ -79,8 +86,8 @@ def judge(items, accept, exp_type, exp_v, nonint, also_hex=True):
         exp = attrs_of(exp_type, exp_v)
         got = {k: (tuple(v) if k == 'data' else v) for k, v in vars(m).items()
                if k not in ('type', 'time')}
-        if m.type != exp_type or got != exp or m.time != 0:
-            return 'wrong-message', 'decoded %s expected %s %r' % (core.srepr(m), exp_type, exp)
+        if m.type != exp_type or got != exp or m.time != (tpos or 0) or (tpos is not None and m.time is not tpos):
+            return 'wrong-message', 'decoded %s expected %s %r (time given: %r)' % (core.srepr(m), exp_type, exp, tpos)
     if allbytes and also_hex:
         hx = ' '.join('%02x' % x for x in items)
         try:
